@@ -97,18 +97,18 @@ func (x *Exec) initGlobals() {
 }
 
 type VerifyResult struct {
-	Key        string
-	Obls       []*Obligation
-	Paths      int
-	Returns    int
-	Aborted    string
-	Warnings   []string
-	Unmodelled []string
-	Inlined    []string
+	Key           string
+	Obls          []*Obligation
+	Paths         int
+	Returns       int
+	Aborted       string
+	Warnings      []string
+	Unmodelled    []string
+	Inlined       []string
 	UsedContracts []string
-	Models     []string
-	Covers     []*Obligation
-	Trusted    bool
+	Models        []string
+	Covers        []*Obligation
+	Trusted       bool
 }
 
 func hasLabel(cls []*Clause, kind, prop string) bool {
@@ -341,6 +341,9 @@ func (x *Exec) atReturn(fr *Frame, c *Contract, entry, st *State, params, result
 				if pv, isP := base.V.(*PtrV); isP {
 					g = tb.Or(pv.IsNil, g)
 				}
+			}
+			if cl.Expr != nil {
+				g = tb.Implies(ec.Bool(cl.Expr), g)
 			}
 			x.addObl(st, fmt.Sprintf("%s/alias(%s)", x.key, cl.Text), "ensures", g, token.NoPos, cl.Labels)
 		}); err != nil {
